@@ -498,10 +498,8 @@ func ruleR36_1(c *Check) {
 	cp.walk(func(n ast.Node) bool {
 		if is, ok := n.(*ast.IfStmt); ok && w.mentions(is.Cond, cts) && w.mentions(is.Cond, w.Field("badger.Options.managedTxns")) {
 			for _, p := range flatten(is.Cond, token.LAND) {
-				if be, ok := unparen(p).(*ast.BinaryExpr); ok && be.Op == token.EQL && w.fieldOf(be.X) == cts {
-					if v, ok := w.constInt(be.Y); ok && v == 0 {
-						okz = w.terminates(is.Body.List)
-					}
+				if eqOf(Guard{Cond: p, Val: true}, true, w.isField(cts), w.isConst(0)) {
+					okz = w.terminates(is.Body.List)
 				}
 			}
 		}
@@ -522,10 +520,8 @@ func ruleR36_2(c *Check) {
 		n++
 		okv := false
 		for _, g := range w.Guards(sv, s) {
-			if be, ok := g.Cond.(*ast.BinaryExpr); ok && be.Op == token.EQL && g.Val && w.fieldOf(be.X) == ver {
-				if v, ok := w.constInt(be.Y); ok && v == 0 {
-					okv = true
-				}
+			if eqOf(g, true, w.isField(ver), w.isConst(0)) {
+				okv = true
 			}
 		}
 		r.Check(okv, sv, "commit timestamp given only to entries without a version", s, "e.version assigned although the entry has an explicit version")
@@ -538,7 +534,7 @@ func ruleR36_2(c *Check) {
 			if id, ok := as.Lhs[0].(*ast.Ident); ok && isBoolLocal(w, id) {
 				if tv := w.Info.Types[as.Rhs[0]]; tv.Value != nil && tv.Value.String() == "false" {
 					for _, g := range w.Guards(sv, as) {
-						if be, ok := g.Cond.(*ast.BinaryExpr); ok && be.Op == token.EQL && !g.Val && w.fieldOf(be.X) == ver {
+						if eqOf(g, false, w.isField(ver), w.isConst(0)) {
 							okk = true
 						}
 					}
